@@ -5,6 +5,7 @@ Exploration = DFS over decision prefixes, harness re-executed per path.
 """
 import builtins
 import fractions
+import math
 import time
 
 import z3
@@ -70,6 +71,68 @@ def _coerce(a, b):
     return a, b
 
 
+# --------------------------------------------------------------------------------------
+# Scaled-integer representation of reals: value = n / D with n an Int term and D a concrete positive int.
+# psutil's floats are ticks/100, kB*1024/2, sums and constant multiples of those: keeping them as n/D keeps
+# every comparison, min/max, truncation and rounding in linear *integer* arithmetic (no ToInt, no mixed sorts).
+
+
+def _rep(x):
+    """(n, D) with x == n/D, n a z3 Int term, or None when x has no such form."""
+    if isinstance(x, SymReal):
+        return x.rep
+    if isinstance(x, SymInt):
+        return (x.t, 1)
+    if isinstance(x, bool) or isinstance(x, SymBool):
+        return None
+    if isinstance(x, int):
+        return (z3.IntVal(x), 1)
+    if isinstance(x, (float, fractions.Fraction)):
+        f = fractions.Fraction(x)
+        return (z3.IntVal(f.numerator), f.denominator)
+    return None
+
+
+def _const_frac(x):
+    """x as an exact Fraction when it is a plain number or a proxy whose term is a numeral, else None."""
+    if isinstance(x, bool):
+        return None
+    if isinstance(x, (int, float, fractions.Fraction)):
+        return fractions.Fraction(x)
+    if isinstance(x, SymNum):
+        r = _rep(x)
+        if r is not None:
+            n = z3.simplify(r[0])
+            if z3.is_int_value(n):
+                return fractions.Fraction(n.as_long(), r[1])
+            return None
+        t = z3.simplify(x.t)
+        if z3.is_rational_value(t):
+            return fractions.Fraction(t.numerator_as_long(), t.denominator_as_long())
+    return None
+
+
+def _from_rep(n, D):
+    if D < 0:
+        n, D = -n, -D
+    ns = z3.simplify(n)
+    if z3.is_int_value(ns):
+        f = fractions.Fraction(ns.as_long(), D)
+        ns, D = z3.IntVal(f.numerator), f.denominator
+    r = SymReal(z3.ToReal(ns) / D if D != 1 else z3.ToReal(ns))
+    r.rep = (ns, D)
+    return r
+
+
+def _common(ra, rb):
+    """Bring two reps to a common denominator: (na, nb, L)."""
+    (na, da), (nb, db) = ra, rb
+    if da == db:
+        return na, nb, da
+    L = da * db // math.gcd(da, db)
+    return na * (L // da), nb * (L // db), L
+
+
 class Sym:
     __slots__ = ("t",)
 
@@ -113,6 +176,13 @@ class SymNum(Sym):
     def _bin(self, o, f, r=False):
         if not isinstance(o, (Sym, int, float, fractions.Fraction)) or isinstance(o, SymBool):
             return NotImplemented
+        if not (isinstance(self, SymInt) and isinstance(o, (SymInt, int))):
+            ra, rb = _rep(self), _rep(o)
+            if ra is not None and rb is not None:
+                if r:
+                    ra, rb = rb, ra
+                na, nb, L = _common(ra, rb)
+                return _from_rep(f(na, nb), L)
         a, b = _coerce(self, o)
         if r:
             a, b = b, a
@@ -133,6 +203,11 @@ class SymNum(Sym):
     def _mul(self, o):
         if not isinstance(o, (Sym, int, float, fractions.Fraction)) or isinstance(o, SymBool):
             return NotImplemented
+        if not (isinstance(self, SymInt) and isinstance(o, (SymInt, int))):
+            for x, y in ((self, o), (o, self)):
+                c, ry = _const_frac(x), _rep(y)
+                if c is not None and ry is not None:
+                    return _from_rep(ry[0] * c.numerator, ry[1] * c.denominator)
         a, b = _coerce(self, o)
         if CUR is not None and a.sort() == z3.RealSort():
             # x * (n/d) with an abstracted quotient: fold into the numerator, (x*n)/d, so terms stay linear
@@ -143,9 +218,13 @@ class SymNum(Sym):
                     if z3.is_rational_value(z3.simplify(n)):
                         return SymReal(CUR.quotient(z3.simplify(v * n), d))
         if CUR is not None and not (z3.is_rational_value(z3.simplify(a)) or z3.is_int_value(z3.simplify(a)) or z3.is_rational_value(z3.simplify(b)) or z3.is_int_value(z3.simplify(b))):
-            for u, v in ((a, b), (b, a)):
+            for u, v, vo in ((a, b, o), (b, a, self)):
                 c = CUR.pinned(u)
                 if c is not None:
+                    cf = _const_frac(_num(c))
+                    rv = _rep(vo)
+                    if cf is not None and rv is not None:
+                        return _from_rep(rv[0] * cf.numerator, rv[1] * cf.denominator)
                     return _num(c * v)
         return _num(a * b)
 
@@ -156,31 +235,43 @@ class SymNum(Sym):
         return self._mul(o)
 
     def __neg__(self):
+        r = _rep(self) if isinstance(self, SymReal) else None
+        if r is not None:
+            return _from_rep(-r[0], r[1])
         return _num(-self.t)
 
     def __pos__(self):
         return self
 
     def __abs__(self):
+        r = _rep(self) if isinstance(self, SymReal) else None
+        if r is not None:
+            return _from_rep(z3.If(r[0] >= 0, r[0], -r[0]), r[1])
         return _num(z3.If(self.t >= 0, self.t, -self.t))
 
     def _div(self, o, r=False):
         if not isinstance(o, (Sym, int, float, fractions.Fraction)):
             return NotImplemented
-        a, b = _coerce(self, o)
-        if r:
-            a, b = b, a
+        num, den = (o, self) if r else (self, o)
+        a, b = _coerce(num, den)
         if a.sort() == z3.IntSort():
             a, b = z3.ToReal(a), z3.ToReal(b)
-        if SymBool(b == 0):
+        rd = _rep(den)
+        if SymBool(rd[0] == 0 if rd is not None else b == 0):
             raise ZeroDivisionError("division by zero")
-        b = z3.simplify(b)
-        if z3.is_rational_value(b) or CUR is None:
-            return SymReal(a / b)          # division by a constant stays linear
-        v = CUR.pinned(b)
-        if v is not None:                  # denominator pinned by the path condition: still linear
-            return SymReal(a / v)
-        return SymReal(CUR.quotient(z3.simplify(a), b))
+        cf = _const_frac(den)
+        if cf is None and CUR is not None:
+            v = CUR.pinned(b)              # denominator pinned by the path condition: still linear
+            if v is not None:
+                cf = _const_frac(_num(v))
+        if cf is not None:                 # division by a constant stays linear (and in integers when possible)
+            rn = _rep(num)
+            if rn is not None:
+                return _from_rep(rn[0] * cf.denominator, rn[1] * cf.numerator)
+            return SymReal(a / _frac(cf))
+        if CUR is None:
+            return SymReal(a / b)
+        return SymReal(CUR.quotient(z3.simplify(a), z3.simplify(b)))
 
     def __truediv__(self, o):
         return self._div(o)
@@ -218,6 +309,11 @@ class SymNum(Sym):
     def _cmp(self, o, f):
         if not isinstance(o, (Sym, int, float, fractions.Fraction)) or isinstance(o, SymBool):
             return NotImplemented
+        if not (isinstance(self, SymInt) and isinstance(o, (SymInt, int))):
+            ra, rb = _rep(self), _rep(o)
+            if ra is not None and rb is not None:
+                na, nb, _ = _common(ra, rb)
+                return SymBool(f(na, nb))
         a, b = _coerce(self, o)
         return SymBool(f(a, b))
 
@@ -289,7 +385,11 @@ class SymInt(SymNum):
 
 
 class SymReal(SymNum):
-    __slots__ = ("round_src",)
+    __slots__ = ("round_src", "rep")
+
+    def __init__(self, t):
+        self.t = t
+        self.rep = None
 
     def __hash__(self):
         return CUR.injective_hash(self.t)
@@ -312,9 +412,18 @@ def sym_max(*a, **kw):
         return builtins.max(a, **kw)
     r = a[0]
     for x in a[1:]:
-        p, q = _coerce(r, x)
-        r = _num(_pick(q > p, q, p))
+        r = _select(r, x, lambda p, q: q > p)
     return r
+
+
+def _select(r, x, better):
+    """x if better(r, x) else r, in scaled integers when both have that form."""
+    rr, rx = _rep(r), _rep(x)
+    if rr is not None and rx is not None and not (isinstance(r, (SymInt, int)) and isinstance(x, (SymInt, int))):
+        nr, nx, L = _common(rr, rx)
+        return _from_rep(_pick(better(nr, nx), nx, nr), L)
+    p, q = _coerce(r, x)
+    return _num(_pick(better(p, q), q, p))
 
 
 def _pick(cond, x, y):
@@ -325,9 +434,9 @@ def _pick(cond, x, y):
     if z3.is_false(cond):
         return y
     if CUR is not None:
-        if CUR._check(z3.Not(cond)) == "unsat":
+        if CUR._check(z3.Not(cond), quick=True) == "unsat":
             return x
-        if CUR._check(cond) == "unsat":
+        if CUR._check(cond, quick=True) == "unsat":
             return y
     return z3.If(cond, x, y)
 
@@ -339,8 +448,7 @@ def sym_min(*a, **kw):
         return builtins.min(a, **kw)
     r = a[0]
     for x in a[1:]:
-        p, q = _coerce(r, x)
-        r = _num(_pick(q < p, q, p))
+        r = _select(r, x, lambda p, q: q < p)
     return r
 
 
@@ -357,12 +465,29 @@ def sym_round(x, nd=None):
         return x
     scale = 10 ** (nd or 0)
     k = CUR.fresh_int("rnd")
-    CUR.add(scale * t - z3.ToReal(k) <= _frac(0.5), scale * t - z3.ToReal(k) >= -_frac(0.5))
+    rp = _rep(x)
+    if rp is not None:      # |scale*n/D - k| <= 1/2  <=>  -D <= 2*scale*n - 2*k*D <= D   (integers only)
+        n, D = rp
+        CUR.add(2 * scale * n - 2 * k * D <= D, 2 * scale * n - 2 * k * D >= -D)
+    else:
+        CUR.add(scale * t - z3.ToReal(k) <= _frac(0.5), scale * t - z3.ToReal(k) >= -_frac(0.5))
     if nd is None:
         return SymInt(k)
-    r = SymReal(z3.ToReal(k) / scale)
-    r.round_src = (SymReal(t), nd)   # lets an oracle talk about the value *before* rounding (keeps Int/NRA apart)
+    r = _from_rep(k, scale)
+    r.round_src = (x if isinstance(x, SymReal) else SymReal(t), nd)   # lets an oracle talk about the value *before* rounding (keeps Int/NRA apart)
     return r
+
+
+def sym_trunc(x):
+    """int(real): truncation toward zero; integer division when the value has the n/D form."""
+    rp = _rep(x)
+    if rp is not None:
+        n, D = rp
+        if D == 1:
+            return SymInt(n)
+        return SymInt(z3.If(n >= 0, n / D, -((-n) / D)))
+    t = x.t
+    return SymInt(z3.If(t >= 0, z3.ToInt(t), -z3.ToInt(-t)))
 
 
 def sym_len(x):
@@ -393,8 +518,7 @@ class Shadows:
         if isinstance(x, SymInt):
             return x
         if isinstance(x, SymReal):  # truncation toward zero
-            t = x.t
-            return SymInt(z3.If(t >= 0, z3.ToInt(t), -z3.ToInt(-t)))
+            return sym_trunc(x)
         if isinstance(x, SymBool):
             return SymInt(z3.If(x.t, 1, 0))
         v = self._lookup(x)
@@ -410,10 +534,10 @@ class Shadows:
         if isinstance(x, SymReal):
             return x
         if isinstance(x, SymInt):
-            return SymReal(z3.ToReal(x.t))
+            return _from_rep(x.t, 1)
         v = self._lookup(x)
         if v is not None:
-            return SymReal(z3.ToReal(v.t))
+            return _from_rep(v.t, 1)
         return builtins.float(x)
 
     def install(self, *modules):
@@ -486,6 +610,19 @@ def evaluate(model, x):
     return x
 
 
+def _site():
+    """psutil source line that asked for the current branch decision (for diagnostics)"""
+    import sys as _sys
+
+    f = _sys._getframe(2)
+    while f is not None:
+        fn = f.f_code.co_filename
+        if "/psutil/" in fn or "/harness/" in fn:
+            return f"{fn.rsplit('/', 1)[-1]}:{f.f_lineno}"
+        f = f.f_back
+    return "?"
+
+
 class Explorer:
     """Runs `fn(ctx)` over all feasible paths (DFS over decision prefixes; the harness is re-executed per path)."""
 
@@ -498,12 +635,20 @@ class Explorer:
         self.vars = {}
         self.known = list(known)   # known-finding regions applicable to this harness: dicts with label, region, id
         self.errors = []
+        self.unknowns = []
 
     # -- solver helpers --------------------------------------------------------------
-    def _check(self, *extra):
+    def _check(self, *extra, quick=False):
         t = time.time()
         self.stats.queries += 1
-        r = self.solver.check(*extra)
+        if quick:       # optimisation-only query (implied-branch pruning, pinning): unknown just means "no shortcut"
+            self.solver.set("timeout", 500)
+            try:
+                r = self.solver.check(*extra)
+            finally:
+                self.solver.set("timeout", self.timeout_ms)
+        else:
+            r = self.solver.check(*extra)
         self.stats.solver_s += time.time() - t
         r = str(r)
         if r == "sat" and not extra:
@@ -561,6 +706,7 @@ class Explorer:
                 rf = self._check(z3.Not(cond))
                 if "unknown" in (rt, rf):
                     self.stats.inconclusive += 1
+                    self.unknowns.append(f"branch {_site()}")
                 can_t, can_f = rt != "unsat", rf != "unsat"
                 self.model = keep if rt == "sat" else None
             else:
@@ -568,6 +714,7 @@ class Explorer:
                 ro = self._check(z3.Not(cond) if side else cond)
                 if ro == "unknown":
                     self.stats.inconclusive += 1
+                    self.unknowns.append(f"branch {_site()}")
                 can_t = side or ro != "unsat"
                 can_f = (not side) or ro != "unsat"
                 self.model = m     # still a model of the path condition; valid for the side it satisfies
@@ -613,7 +760,7 @@ class Explorer:
         v = m.eval(t, model_completion=True)
         if not (z3.is_rational_value(v) or z3.is_int_value(v)):
             return None
-        return v if self._check(t != v) == "unsat" else None
+        return v if self._check(t != v, quick=True) == "unsat" else None
 
     def quotient(self, a, b):
         """Lazy abstraction of a/b for symbolic b: a fresh real q with linear consequences asserted and the
@@ -635,6 +782,20 @@ class Explorer:
                 facts.append(z3.Implies(z3.And(sgn_b, ge), q >= c))
         self.add(*facts)
         return q
+
+    def as_ratio(self, t):
+        """(a, b, c) with t == c * a / b when t is (a constant multiple of) an abstracted quotient, else None."""
+        t = z3.simplify(t)
+        ent = self._quot_by_var.get(t.get_id())
+        if ent is not None:
+            return ent[0], ent[1], z3.RealVal(1)
+        if z3.is_mul(t) and t.num_args() == 2:
+            x, y = t.arg(0), t.arg(1)
+            for c, q in ((x, y), (y, x)):
+                ent = self._quot_by_var.get(q.get_id())
+                if ent is not None and z3.is_rational_value(c):
+                    return ent[0], ent[1], c
+        return None
 
     def injective_hash(self, t):
         for u, h in self._hashed:
@@ -681,6 +842,12 @@ class Explorer:
                     fn(ctx, **cfg)
                 self.stats.paths += 1
                 m = self.current_model()
+                if m is not None and self.exact_defs:
+                    # quotient abstractions: take a model in which every abstracted a/b has its exact value
+                    if self._check(*self.exact_defs, quick=True) == "sat":
+                        m = self.solver.model()
+                    else:
+                        ctx.observed = []
                 if m is not None:
                     self.path_models.append((self.assignment(m), [(l, evaluate(m, v)) for l, v in ctx.observed]))
             except Abort:
@@ -790,6 +957,7 @@ class SymCtx:
                 return not extra
             if r == "unknown":
                 ex.stats.inconclusive += 1
+                ex.unknowns.append(f"obligation {label}")
                 return None
             m = ex.solver.model()
             a = ex.assignment(m)
@@ -840,6 +1008,10 @@ class SymCtx:
     def ite(c, a, b):
         if isinstance(c, builtins.bool):
             return a if c else b
+        ra, rb = _rep(a), _rep(b)
+        if ra is not None and rb is not None and not (isinstance(a, (SymInt, int)) and isinstance(b, (SymInt, int))):
+            na, nb, L = _common(ra, rb)
+            return _from_rep(z3.If(lift(c), na, nb), L)
         x, y = _coerce(a, b)
         return _num(z3.If(lift(c), x, y))
 
@@ -859,6 +1031,10 @@ class SymCtx:
                 return False
             if isinstance(a, SymBool) or isinstance(b, SymBool):
                 return SymBool(_boolterm(a) == _boolterm(b))
+            ra, rb = _rep(a), _rep(b)
+            if ra is not None and rb is not None:
+                na, nb, _ = _common(ra, rb)
+                return SymBool(na == nb)
             x, y = _coerce(a, b)
             return SymBool(x == y)
         if isinstance(a, float) or isinstance(b, float):
@@ -870,6 +1046,20 @@ class SymCtx:
 
     max = staticmethod(sym_max)
     min = staticmethod(sym_min)
+
+    def is_ratio(self, x, num, den):
+        """Term for `x == num/den` (den != 0 on this path) that stays linear: when x is an abstracted quotient
+        c*a/b of the code under test, it is decided structurally as b == den and c*a == num."""
+        r = self.ex.as_ratio(lift(x)) if is_sym(x) else None
+        if r is not None:
+            a, b, c = r
+            dn, nm = lift(den), lift(num)
+            if dn.sort() == z3.IntSort():
+                dn = z3.ToReal(dn)
+            if nm.sort() == z3.IntSort():
+                nm = z3.ToReal(nm)
+            return SymBool(z3.And(b == dn, c * a == nm))
+        return self.eq(x, num / den)
 
     @staticmethod
     def sum(items):
@@ -883,13 +1073,13 @@ class SymCtx:
         """Exact a/b (b a concrete non-zero int)."""
         if is_sym(a):
             return a / b
-        return fractions.Fraction(a) / b
+        return fractions.Fraction(a) / fractions.Fraction(b)
 
     @staticmethod
     def trunc(x):
         """Truncation toward zero of a real-valued term (Python int())."""
         if isinstance(x, SymReal):
-            return SymInt(z3.If(x.t >= 0, z3.ToInt(x.t), -z3.ToInt(-x.t)))
+            return sym_trunc(x)
         if is_sym(x):
             return x
         return builtins.int(x)
@@ -956,6 +1146,11 @@ class ConcreteCtx:
     neg = staticmethod(lambda a: not a)
     ite = staticmethod(lambda c, a, b: a if c else b)
     eq = staticmethod(_tol_eq)
+
+    @staticmethod
+    def is_ratio(x, num, den):
+        return _tol_eq(builtins.float(x), builtins.float(fractions.Fraction(num) / fractions.Fraction(den)))
+
     max = staticmethod(builtins.max)
     min = staticmethod(builtins.min)
     sum = staticmethod(lambda items: builtins.sum(items))
